@@ -182,20 +182,23 @@ func (t *tr) store(heaps map[string]string, addr string, ty types.Type, vals []s
 	if len(vals) != len(lv) {
 		panic(fmt.Sprintf("store arity %d vs %d for %s", len(vals), len(lv), ty))
 	}
-	// group by heap so that a [32]byte store is one new version
-	exprs := map[string]string{}
+	// group by heap so that a [32]byte store is one new version; the object's cell array is updated cell by cell and
+	// written back once (linear size)
+	ta, tb, tc := locParts(addr)
+	arrs := map[string]string{}
 	var order []string
 	for i, l := range lv {
 		h := "H_" + l
-		cur, ok := exprs[h]
+		cur, ok := arrs[h]
 		if !ok {
-			cur = t.H(heaps, h)
+			cur = fmt.Sprintf("(select (select %s %s) %s)", t.H(heaps, h), ta, tb)
 			order = append(order, h)
 		}
-		exprs[h] = sto(cur, locPlus(addr, i), vals[i])
+		arrs[h] = fmt.Sprintf("(store %s %s %s)", cur, addConst(tc, i), vals[i])
 	}
 	for _, h := range order {
-		t.setHeap(heaps, h, exprs[h])
+		hv := t.H(heaps, h)
+		t.setHeap(heaps, h, fmt.Sprintf("(store %s %s (store (select %s %s) %s %s))", hv, ta, hv, ta, tb, arrs[h]))
 	}
 }
 
